@@ -2,6 +2,7 @@ use vstd::prelude::*;
 use vstd::std_specs::cmp::*;
 use core::cmp::Ordering;
 use std::collections::BTreeMap;
+use std::collections::HashMap;
 use std::collections::BTreeSet;
 use std::sync::Arc;
 //@ items
@@ -177,3 +178,49 @@ impl NameCounts {
 pub uninterp spec fn numbered(name: Seq<char>, n: nat) -> Seq<char>;
 #[verifier::external_body]
 pub fn name_with_number(name: &String, num: usize) -> (r: String) ensures r@ == numbered(name@, num as nat) { unimplemented!() }
+
+// ---- the tag walk of gen_openapi: std adapters that only remember which listing they were fed ----
+#[verifier::external_body]
+pub struct TagDetails { _p: u8 }
+/// String keys of a HashMap obey vstd's key model (A8)
+pub broadcast axiom fn axiom_string_obeys_key_model()
+    ensures #[trigger] vstd::std_specs::hash::obeys_key_model::<String>();
+#[verifier::external_body]
+pub struct TagFilter<'a> { _p: core::marker::PhantomData<&'a u8> }
+pub trait FilterTags { fn filter_tags<'a, F: Fn(&&'a String) -> bool>(&'a self, f: F) -> TagFilter<'a>; }
+impl FilterTags for Vec<String> {
+    /// `tags.iter().filter(pred)`
+    #[verifier::external_body]
+    fn filter_tags<'a, F: Fn(&&'a String) -> bool>(&'a self, f: F) -> TagFilter<'a> { unimplemented!() }
+}
+#[verifier::external_body]
+#[verifier::reject_recursive_types(C)]
+pub struct TagWalk<'a, C: ServerContext> { _p: core::marker::PhantomData<&'a C> }
+/// the listing a tag walk draws its tags from
+pub uninterp spec fn walk_src<'a, C: ServerContext>(w: TagWalk<'a, C>) -> Seq<(Seq<PathSegment>, String, ApiEndpoint<C>)>;
+#[verifier::external_body]
+#[verifier::reject_recursive_types(C)]
+pub struct TagOut<'a, C: ServerContext> { _p: core::marker::PhantomData<&'a C> }
+pub uninterp spec fn out_src<'a, C: ServerContext>(w: TagOut<'a, C>) -> Seq<(Seq<PathSegment>, String, ApiEndpoint<C>)>;
+pub struct OTag { pub name: String, pub rest: OpaqueTagRest }
+#[verifier::external_body]
+pub struct OpaqueTagRest { _p: u8 }
+impl Default for OTag { #[verifier::external_body] fn default() -> OTag { unimplemented!() } }
+impl<'a, C: ServerContext> HttpRouterIter<'a, C> {
+    /// `listing.flat_map(f)`: f applied to every item of the listing (what f makes of an item is not modelled)
+    #[verifier::external_body]
+    pub fn tags_of_each<F: Fn((String, String, &'a ApiEndpoint<C>)) -> TagFilter<'a>>(self, f: F) -> (r: TagWalk<'a, C>)
+        requires forall|x: (String, String, &'a ApiEndpoint<C>)| call_requires(f, (x,)),
+        ensures walk_src(r) == rest(self)
+    { unimplemented!() }
+}
+impl<'a, C: ServerContext> TagWalk<'a, C> {
+    #[verifier::external_body] pub fn cloned_(self) -> (r: TagWalk<'a, C>) ensures walk_src(r) == walk_src(self) { unimplemented!() }
+    #[verifier::external_body] pub fn collect_set(self) -> (r: TagWalk<'a, C>) ensures walk_src(r) == walk_src(self) { unimplemented!() }
+    #[verifier::external_body] pub fn into_iter_(self) -> (r: TagWalk<'a, C>) ensures walk_src(r) == walk_src(self) { unimplemented!() }
+    #[verifier::external_body]
+    pub fn map_tags<G: Fn(String) -> OTag>(self, g: G) -> (r: TagOut<'a, C>)
+        requires forall|t: String| call_requires(g, (t,)),
+        ensures out_src(r) == walk_src(self)
+    { unimplemented!() }
+}
